@@ -38,8 +38,11 @@ MANIFEST = dict(
          "the real FlowSampler(resume=True) constructor with real NestedSampler / ImportanceNestedSampler pickles and real "
          "weights, also in a forked child) is run and its outcome class Fresh/Loaded(v,n)/Raises(type) compared with the "
          "model's resume; short real runs of both samplers are killed inside real checkpoints / weight saves and continued.",
-    note="Assumed: rename (shutil.move/os.replace within a directory) is atomic; a killed writer leaves a prefix of the bytes "
-         "(page-cache loss after SIGKILL/power loss is covered only as 'some prefix'); unpickling/torch.load of a prefix "
+    note="Assumed: rename (shutil.move/os.replace within a directory) is atomic; a killed writer leaves a prefix of the bytes; "
+         "bytes written through a handle are only on disk once the handle is closed (model: `write` leaves the file pending "
+         "under whatever name it has, a kill keeps an arbitrary prefix; injection: the kill does not flush — the on-disk "
+         "size is read through the file system at the kill and the file is truncated back to it after unwinding; the real "
+         "pickle.dump runs through the real BufferedWriter); unpickling/torch.load of a prefix "
          "raises (observed at every ladder offset). pickle/torch byte formats abstracted to complete/torn. Known finding F3 "
          "(torn model.pt after a kill inside FlowModel.save_weights) is reported, not hidden.",
     technique="Lean 4 proof (invariant + induction over histories) over source-generated protocol lists + fault-injection "
@@ -353,14 +356,15 @@ class StdBackend(Backend):
 
 # ----------------------------------------------------------------------------- scripted histories
 def cp_token(rec, cp, nops):
-    """model token for the crash point actually realised"""
+    """model token for the crash point actually realised (`~f`: on-disk size of a written, unclosed file)"""
     if cp is None:
         return "-"
     j = cp[0]
     if rec.get("crashed"):
+        fl = "" if rec.get("flushed") is None else f"~{rec['flushed']}"
         if rec["k"] is None:
-            return str(rec["j"])
-        return f"{rec['j']}.{rec['k']}"
+            return str(rec["j"]) + fl
+        return f"{rec['j']}.{rec['k']}" + fl
     return str(j)      # the protocol completed and the process died afterwards (j >= number of operations)
 
 
@@ -516,7 +520,7 @@ def compare_scripted(ctx, kind, steps, case, norm=None):
             mops = [t.split(":")[0] for t in mo.split(" ") if t]
             st = steps[i]
             want = mops if not st["killed"] else mops[:len(io)]
-            if io != want or (st["crashed"] and not st["killed"] and int(st["tok"].rsplit(":", 1)[1].split(".")[0]) < len(mops)):
+            if io != want or (st["crashed"] and not st["killed"] and int(st["tok"].rsplit(":", 1)[1].split("~")[0].split(".")[0]) < len(mops)):
                 ctx.disagree("operation sequence of the real protocol differs from the generated statement list",
                              {"line": line, "model": mo, "impl": " ".join(io), "case": case, "step": i})
         else:
@@ -840,6 +844,8 @@ class RealRun:
         for rec in self.inj.calls[start:]:
             if rec["crashed"]:
                 cp = str(rec["j"]) if rec["k"] is None else f"{rec['j']}.{rec['k']}"
+                if rec.get("flushed") is not None:
+                    cp += f"~{rec['flushed']}"
             else:
                 cp = "-"
             length = rec.get("len") or 1
@@ -1001,7 +1007,8 @@ def correspond(ctx):
                 "ins-run / std-run (real sampler runs killed inside real checkpoints / weight saves and continued); "
                 "non-trivial = at least one checkpoint completed before the kill, or the kill is inside a write")
     ctx.assume("shutil.move / os.replace / os.rename within one directory are atomic (POSIX rename)",
-               "a killed writer leaves a prefix of the bytes it was writing (what reached the file before the kill)",
+               "a killed writer leaves a prefix of the bytes it was writing (what reached the file before the kill); user-space "
+               "buffers of a handle that was not closed are lost: the file keeps its on-disk size at the kill, under its current name",
                "unpickling a strict prefix raises EOFError/UnpicklingError; torch.load of a strict prefix raises EOFError (0 bytes), "
                "UnpicklingError (1-3 bytes) or RuntimeError / OSError (>= 4 bytes, alternating ranges) — which one is observed with "
                "torch.load on the torn file and handed to the model as an input",
@@ -1025,7 +1032,7 @@ def correspond(ctx):
         structured(ctx, "stub", PREFIXES_STUB[:3], lasts_c, every, payload=32)
     for _ in range(ctx.scale(120, 1500)):
         scripted_case(ctx, "stub", random_history(ctx.rng, "stub", ctx.rng.randrange(2, 8)),
-                      payload=ctx.rng.choice([0, 16, 64, 300, 5000]))
+                      payload=ctx.rng.choice([0, 16, 64, 300, 5000, 20000, 70000, 150000]))
     ctx.extra["wall_stub_s"] = round(time.time() - t0, 1)
     # layer 2: the real standard sampler objects
     t1 = time.time()
